@@ -17,9 +17,9 @@ What is mirrored, quirks included:
   `IfVersion(obj.Version)`, write-back of `Version` (and `Index`) into the caller's object;
   guards, the Revision++ flag, the IfVersion field and the callee order come from the translator
   (`OnosVerif.Generated`), so the definitions below change when the Go sources change;
-* configuration stores: ONE side map per configuration id shared by the committed and the applied
-  values (`getCommitted` and `getApplied` build the same atomix map name), written by `store()`
-  BEFORE the entry compare-and-set (so a refused Update has already merged its values), a shadow copy
+* configuration stores: two side maps per configuration id, `configurations-<id>` for the committed and
+  `configurations-<id>-applied` for the applied values (separate since commit 7dda02f; whether the two
+  names coincide is a regenerated fact), written by `store()` BEFORE the entry compare-and-set (so a refused Update has already merged its values), a shadow copy
   of the caller's other value map left inside the entry (`Update` nils `Values` but stores
   `Status.Applied.Values`; `UpdateStatus` the other way round), `Get` = entry overlaid by the side map;
   v3 `store()` passes `&pv` of the range variable (go 1.19 semantics): every key written by one call
@@ -222,6 +222,20 @@ def valuesBeforeCas : Kind → Meth → Bool
   | .cfg3, .create => v3CfgCreateValuesFirst
   | _, _ => false
 
+open OnosVerif.Generated.StoreFacts in
+/-- `getCommitted` and `getApplied` open the same atomix map. -/
+def sideMapsShared : Kind → Bool
+  | .cfg2 => v2CfgSideMapsShared
+  | .cfg3 => v3CfgSideMapsShared
+  | _ => false
+
+open OnosVerif.Generated.StoreFacts in
+/-- what the applied map's name appends to the committed map's name. -/
+def appliedSuffix : Kind → Key
+  | .cfg2 => v2CfgAppliedSuffix.toList
+  | .cfg3 => v3CfgAppliedSuffix.toList
+  | _ => []
+
 def Kind.isCfg : Kind → Bool
   | .cfg2 | .cfg3 => true
   | _ => false
@@ -275,6 +289,10 @@ def sideOf (k : Kind) (o : Obj) : Key :=
   match k with
   | .cfg3 => dash o.id o.ttype o.tver
   | _ => o.id
+
+/-- name of the applied-values map of a configuration: since commit 7dda02f `configurations-<id>-applied`. -/
+def appliedSideOf (k : Kind) (o : Obj) : Key :=
+  if sideMapsShared k then sideOf k o else sideOf k o ++ appliedSuffix k
 
 def Store.space (s : Store) (sp : Key) : Prim Obj := (alGet s.spaces sp).getD {}
 
@@ -340,8 +358,9 @@ def firstFiring (gs : List Guard) (o : Obj) : Bool := gs.any (fun g => g.fires o
 def valuesHalf (s : Store) (m : Meth) (o : Obj) (last : Key) : Store :=
   let k := s.kind
   if k.isCfg ∧ valuesBeforeCas k m then
+    let sd := if m == .updateStatus then appliedSideOf k o else sideOf k o
     match (if m == .updateStatus then o.avals else o.vals) with
-    | some vs => s.setSide (sideOf k o) (storeVals (s.side (sideOf k o)) vs (aliasOf k vs last))
+    | some vs => s.setSide sd (storeVals (s.side sd) vs (aliasOf k vs last))
     | none => s
   else s
 
@@ -402,10 +421,10 @@ def readEntry (s : Store) (e : PEntry Obj) (setKey : Bool) : Obj :=
   let k := s.kind
   let o := { e.value with version := e.version, index := if createIndexed k then e.index else e.value.index }
   if k.isCfg then
-    let sd := s.side (sideOf k o)
     -- an empty map does not survive the protobuf round trip of the stored entry
     let nz : Option Vals → Option Vals := fun v => match v with | some [] => none | x => x
-    let o := { o with vals := overlay (nz o.vals) sd, avals := overlay (nz o.avals) sd }
+    let o := { o with vals := overlay (nz o.vals) (s.side (sideOf k o)),
+                      avals := overlay (nz o.avals) (s.side (appliedSideOf k o)) }
     if setKey then { o with key := e.key } else o
   else o
 
